@@ -42,7 +42,7 @@ static char *LINES[80]; static int NLINES; static char *BIGLINE; static int bigm
 static void build_lines(void)
 {
   static const char *fixed[] = {
-    "k=v", "k = v", "k=", "k", "=v", "=", "k v", "k  v w", "k:v", "[A]", "[A] ", "[A] x", "[", "[]", "]", "[a", "[ ]",
+    "k=v", "k = v", "k=", "k", "=v", "=", "k v", "k  v w", "k:v", "[A]", "[A] ", "[A] x", "[", "[]", "]", "[a", "[ ]", "[[A]]",
     "# c", "#", "##", "; c", "  # c", "k=v # c", "k=v # c # d", "k=\"", "k=\"q\"", "k=\"q", "\"", "k=\"a#b\" # c",
     "  c1", "\tc2", "c3", "  ", "", "k=v\\", "  k2=v2", "[A]#c", "k=\"\"", "k==v", "k= =v", "a b=c", "k=v ;c", "k=1", "k=yes",
   };
